@@ -510,9 +510,27 @@ def lattrText (dflt lo hi : Nat) (v : Option Str) : Conv Int :=
       else if t < lo ∨ t > hi then .err .BadValue else .val t u
     | .val _ _ => .unsup
 
+/-- `inf`, `infinity`, `nan` (any case, optional sign, after blanks) at the start of a coordinate text: strtof
+    accepts them; every range of the point properties excludes the value.  (sign negative, characters used) -/
+def specialFloat (s : Str) : Option (Bool × Nat) :=
+  let t := skipSpaces s
+  let (neg, u, sg) := takeSign t
+  let l := u.map lower
+  let sp := s.length - t.length
+  if l.take 8 == [105, 110, 102, 105, 110, 105, 116, 121] then some (neg, sp + sg + 8)
+  else if l.take 3 == [105, 110, 102] then some (neg, sp + sg + 3)
+  else if l.take 3 == [110, 97, 110] ∧ (l.drop 3).head? != some 40 then some (neg, sp + sg + 3)
+  else Option.none
+
+/-- a value outside every range used by the point properties -/
+def Fl.outside (neg : Bool) : Fl := ⟨if neg then -1 else 1, 2000⟩
+
 /-- one coordinate for `mpt_iterator_consume(it, 'f', ..)` on the string iterator: the element converter
     is `mpt_convert_string(it->val, 'f', ..)`, every failure surfaces as BadType (`mpt_value_convert`) -/
 def coordText (s : Str) : Conv Fl :=
+  match specialFloat s with
+  | some (neg, used) => .val (Fl.outside neg) used
+  | Option.none =>
   match convText 'f' (some s) with
   | .val (.flt x) u => .val x u
   | .val _ _ => .unsup
